@@ -13,6 +13,7 @@ import (
 	"sort"
 	"strings"
 	"testing"
+	"time"
 	"testing/synctest"
 
 	"github.com/ipfs/go-cid"
@@ -146,7 +147,7 @@ func (h *headServer) ServeHTTP(w http.ResponseWriter, r *http.Request) {
 
 func TestCheck(t *testing.T) {
 	r := vp.New("C03", "exploration",
-		"publisher side: every root of a 10-CID alphabet (v0, v1 x 3 codecs x 3 hash functions) x 10 topics (none, ascii, unicode, 256, 1000 and 6600 bytes, ending in '/', only '/', padded with spaces, mixed case) x key types: the real Publisher's /head answer is validated by the reference and must be accepted, with the same CID and signer, by the library's own head.Decode / Validate; one publisher taken through every ordered pair of roots (root, other root, first root again), the head verified after every change. Client side: for each of a corpus of valid encoded heads (key types x topics) served verbatim to the real Syncer.GetHead (libp2p-HTTP discovery and plain HTTP): every single-byte substitution, every truncation, and field-level alterations (CID replaced, topic added/removed/changed/given a leading or trailing slash, space or NUL/upper-cased/shortened by a character, key of another identity of the same and another type, signature of another head, key+signature swapped between two valid heads, re-signed by another identity, empty key, empty signature); every field-level alteration served cold (fresh Syncer) and after each of 5 histories of valid heads on a reused Syncer ([valid], [other root], [valid, other], [other, valid], [valid, valid]), each altered head served up to 3 times in a row, followed by both valid heads again; every byte-level alteration right after the valid head on a reused Syncer (every 8th also cold); every field-level alteration also against Syncers created for address lists that mix the HTTP address with a non-HTTP one (both orders) or repeat it; every alteration class also through Subscriber.SyncAdChain, cold and after a healthy sync with a head query (altered head derived from the head served before, and from the current one), with the publisher named in the ID field of the AddrInfo and named only by a /p2p component of its addresses. Non-trivial: every altered head. Distinct = distinct (head, alteration).",
+		"publisher side: every root of a 10-CID alphabet (v0, v1 x 3 codecs x 3 hash functions) x 10 topics (none, ascii, unicode, 256, 1000 and 6600 bytes, ending in '/', only '/', padded with spaces, mixed case) x key types: the real Publisher's /head answer is validated by the reference and must be accepted, with the same CID and signer, by the library's own head.Decode / Validate; one publisher taken through every ordered pair of roots (root, other root, first root again), the head verified after every change. Client side: for each of a corpus of valid encoded heads (key types x topics) served verbatim to the real Syncer.GetHead (libp2p-HTTP discovery and plain HTTP): every single-byte substitution, every truncation, and field-level alterations (CID replaced, topic added/removed/changed/given a leading or trailing slash, space or NUL/upper-cased/shortened by a character, key of another identity of the same and another type, signature of another head, key+signature swapped between two valid heads, re-signed by another identity, empty key, empty signature); every field-level alteration served cold (fresh Syncer) and after each of 5 histories of valid heads on a reused Syncer ([valid], [other root], [valid, other], [other, valid], [valid, valid]), each altered head served up to 3 times in a row, followed by both valid heads again; every byte-level alteration right after the valid head on a reused Syncer (every 8th also cold); every field-level alteration also against Syncers created for address lists that mix the HTTP address with a non-HTTP one (both orders), repeat it, or hold nil entries, and against sync clients built with each ClientOption (server peer-ID authentication on/off, time-out, retry) and with all of them; every alteration class also through Subscriber.SyncAdChain, cold and after a healthy sync with a head query (altered head derived from the head served before, and from the current one), with the publisher named in the ID field of the AddrInfo and named only by a /p2p component of its addresses, or by the ID field next to a nil entry and an address whose /p2p component names another identity. Non-trivial: every altered head. Distinct = distinct (head, alteration).",
 		"reference validator (generic DAG-JSON decode + libp2p crypto) is the oracle; an altered encoding is required to be rejected only when the reference rejects it (byte changes that alter no value are not alterations)",
 		"announce-triggered syncs do not query the head and are out of this property's reach",
 		"ECDSA signatures are randomised by the signer (libp2p/crypto), so the encoded ECDSA head, and with it the number of byte positions enumerated, varies by a few bytes between runs; every other fixture is deterministic",
@@ -537,6 +538,42 @@ func clientSide(t *testing.T, r *vp.Recorder, kt, topic string, ti int, disc, th
 			}
 			serve(sc, key, class, fmt.Sprintf("cold, address list %v", shape), a.body)
 		}
+	}
+	// the same alterations against sync clients built with each of the client
+	// options (alone and together): whatever a client is configured with, a
+	// head is accepted only when signed by the publisher asked for
+	clientOpts := []struct {
+		name string
+		opts []ipnisync.ClientOption
+	}{
+		{"auth-server-peer-id", []ipnisync.ClientOption{ipnisync.ClientAuthServerPeerID(true)}},
+		{"auth-server-peer-id-off", []ipnisync.ClientOption{ipnisync.ClientAuthServerPeerID(false)}},
+		{"http-timeout", []ipnisync.ClientOption{ipnisync.ClientHTTPTimeout(5 * time.Second)}},
+		{"http-retry", []ipnisync.ClientOption{ipnisync.ClientHTTPRetry(1, time.Millisecond, 2*time.Millisecond)}},
+		{"auth+retry+timeout", []ipnisync.ClientOption{ipnisync.ClientAuthServerPeerID(true), ipnisync.ClientHTTPRetry(1, time.Millisecond, 2*time.Millisecond), ipnisync.ClientHTTPTimeout(5 * time.Second)}},
+	}
+	for _, co := range clientOpts {
+		osy := ipnisync.NewSync(st.LinkSystem(), nil, co.opts...)
+		for _, a := range append([]alteration{{"none", valid}}, alts...) {
+			key := fmt.Sprintf("%s|client-option-%s|field|%s", base, co.name, a.name)
+			if !r.Mine(key) {
+				continue
+			}
+			r.Eval(key, true)
+			sc, err := osy.NewSyncer(peer.AddrInfo{ID: me.ID, Addrs: []multiaddr.Multiaddr{multiaddr.StringCast("/dns4/pub.test/tcp/80/http")}})
+			if err != nil {
+				// a client that cannot be made for this publisher accepts nothing
+				r.Outcome("no-syncer-with-option-" + co.name)
+				continue
+			}
+			class := "field:" + a.name
+			if a.name == "none" {
+				class = "valid"
+			}
+			serve(sc, key, class, "cold, client option "+co.name, a.body)
+			serve(sc, key, class, "client option "+co.name+", served a second time", a.body)
+		}
+		osy.Close()
 	}
 	for cut := 0; cut < len(valid); cut++ {
 		tryWarm(fmt.Sprintf("%s|trunc|%d", base, cut), "truncation", valid[:cut])
